@@ -40,7 +40,7 @@ func (c *Ctx) regionInit(name string, gen int) string {
 	if !ok {
 		if name == "$alloc" {
 			sort_ = "Int"
-		} else if name == "$wfault" {
+		} else if name == "$wfault" || name == "$rfault" {
 			sort_ = "Bool"
 		} else if name == "$tpos" {
 			sort_ = "Int"
@@ -71,7 +71,7 @@ func (c *Ctx) regionSort(name string) string {
 	if name == "$alloc" {
 		return "Int"
 	}
-	if name == "$wfault" {
+	if name == "$wfault" || name == "$rfault" {
 		return "Bool"
 	}
 	if name == "$tpos" {
@@ -105,6 +105,7 @@ func (c *Ctx) havocAll(s *State) {
 	tp := c.region(s, "$tpos")
 	held := c.region(s, "$held")
 	op := c.region(s, "$opos")
+	rf := c.region(s, "$rfault")
 	defer func() {
 		// unknown code may have written output: the output cursor only moves forward
 		n := c.freshSort("opos", "Int")
@@ -114,6 +115,8 @@ func (c *Ctx) havocAll(s *State) {
 		s.cells["$held"] = Val{S: held} // code outside the package cannot touch the package's own mutex
 		// unknown code may have read from the input: the tape cursor only moves forward
 		c.havocTpos(s, tp)
+		s.cells["$rfault"] = Val{S: rf}
+		c.havocRfault(s)
 	}()
 	for k := range s.cells {
 		if isRegionKey(k) {
@@ -146,6 +149,14 @@ func (c *Ctx) havocWfault(s *State) {
 	n := c.freshSort("wfault", "Bool")
 	c.assume(implies(old, n))
 	s.cells["$wfault"] = Val{S: n}
+}
+
+// havocRfault: the ghost read-fault flag after code that may have read input.
+func (c *Ctx) havocRfault(s *State) {
+	old := c.region(s, "$rfault")
+	n := c.freshSort("rfault", "Bool")
+	c.assume(implies(old, n))
+	s.cells["$rfault"] = Val{S: n}
 }
 
 // havocTpos: the ghost input cursor after code that may have read input.
